@@ -236,7 +236,8 @@ def check(ctx, rep):
         fs = fb.adt_fields("rc4::Rc4")
         kinds = [fb.ty(f["ty"]) for f in fs]
         si = [i for i, t in enumerate(kinds) if t.k == "array" and t.len == 256]
-        cnt = [i for i, t in enumerate(kinds) if t.k == "int" and t.bits == 8 and not t.signed]
+        # (a counter declared `Wrapping<u8>` is the same byte with wrapping operators spelled `+`)
+        cnt = [i for i, t in enumerate(kinds) if (t.k == "int" and t.bits == 8 and not t.signed) or t.s in ("std::num::Wrapping<u8>", "core::num::Wrapping<u8>")]
         rep.check(len(si) == 1 and len(cnt) == 2 and len(fs) == 3, "prga", "rc4::Rc4", "state-shape", "state = [u8; 256] + two u8 counters (wrap at 256 by type)", "Rc4 fields are %s" % [t.s for t in kinds])
         if len(si) == 1 and len(cnt) == 2:
             # roles of the two counters: i is the one incremented by the constant 1
@@ -331,7 +332,8 @@ def check(ctx, rep):
     # ---------------- KSA
     ksa(ctx, rep)
     # ---------------- state writers
-    ws = ciphers.field_writers(fb, "rc4::Rc4")
+    fc = util.faithful_clones(ctx)        # a proved field-for-field copy creates no new state
+    ws = [w for w in ciphers.field_writers(fb, "rc4::Rc4") if w[0] not in fc]
     allowed = {"rc4::Rc4::new", "rc4::Rc4::key_scheduling_algorithm", "rc4::Rc4::pseudo_random_generation", "rc4::Rc4::key_scheduling_algorithm::{closure#1}", "rc4::Rc4::key_scheduling_algorithm::{closure#0}"}
     pc = prga_closure(ctx)
     if pc is not None and not ctx.has("rc4::Rc4::pseudo_random_generation"):
@@ -514,7 +516,7 @@ def ksa(ctx, rep):
                             others += 1
                     else:
                         others += 1
-                good = got_j == want_j and got_S == want_S and others == 0
+                good = arith.assoc(got_j) == arith.assoc(want_j) and arith.assoc(got_S) == arith.assoc(want_S) and others == 0
                 desc = "j' = %s; S' = %s" % (arith.show(got_j) if got_j else "?", arith.show(got_S)[:120] if got_S else "?")
     rep.check(j0_ok, "ksa", fn, "j-starts-at-0", "j = 0 before mixing; the closure works on (j, this table)", "mixing closure is not started with j = 0 over this state", body.loc())
     rep.check(good, "ksa", cl[2] if cl[0] == "agg" else fn, "mixing-step", "j' = j +8 S[n] +8 key byte; swap(S[n], S[j'])", "KSA mixing step is " + desc, c1.body.loc() if c1 else None)
@@ -664,6 +666,6 @@ def ksa_loops(ctx, rep, se):
             got_S = arith.norm(stp[3], env)
         elif not in_self:
             got_S = arith.norm(stp, env)
-        good = got_j == want_j and got_S == ("swap", S("S"), S("n"), want_j)
+        good = arith.assoc(got_j) == arith.assoc(want_j) and arith.assoc(got_S) == arith.assoc(("swap", S("S"), S("n"), want_j))
         desc = "j' = %s; S' = %s" % (arith.show(got_j), arith.show(got_S)[:120] if got_S else "?")
     rep.check(good, "ksa", fn, "mixing-step", "j' = j +8 S[n] +8 key byte; swap(S[n], S[j'])", "KSA mixing step is " + desc, body.loc())
